@@ -45,12 +45,16 @@ class RTFDocumentService:
                     if section_headers:  # Skip [None] sections
                         for header in section_headers:
                             if header and header.text is not None:
-                                additional_rows += 1
+                                additional_rows += self._column_header_lines(
+                                    document, header
+                                )
             else:
                 # Flat format: original logic
                 for header in document.rtf_column_header:
                     if header is not None and header.text is not None:
-                        additional_rows += 1
+                        additional_rows += self._column_header_lines(
+                            document, header
+                        )
 
         # Count footnote rows
         if document.rtf_footnote and document.rtf_footnote.text:
@@ -61,6 +65,64 @@ class RTFDocumentService:
             additional_rows += 1
 
         return additional_rows
+
+    def _column_header_lines(self, document, header) -> int:
+        """Lines a column header row occupies: those of its widest cell at the
+        cell's own font, size and width (a header row that does not wrap is 1)."""
+        import polars as pl
+
+        from ..attributes import BroadcastValue
+        from ..strwidth import get_string_width
+
+        text = header.text
+        if isinstance(text, pl.DataFrame):
+            labels = [str(v) for v in text.row(0)] if text.height else []
+        else:
+            labels = [str(v) for v in text]
+        n_labels = len(labels)
+        if n_labels == 0:
+            return 1
+
+        widths = header.col_rel_width
+        body = document.rtf_body
+        if (
+            widths is not None
+            and len(widths) != n_labels
+            and isinstance(document.df, pl.DataFrame)
+            and len(widths) == len(document.df.columns)
+            and not isinstance(body, list)
+        ):
+            # Widths inherited from the body cover all original columns: keep
+            # those of the columns still displayed (as the renderer does)
+            removed = set(body.subline_by or [])
+            if body.page_by and not (body.new_page and body.pageby_row == "column"):
+                removed.update(body.page_by)
+            widths = [
+                width
+                for column, width in zip(document.df.columns, widths, strict=True)
+                if column not in removed
+            ]
+        if widths is None or len(widths) != n_labels:
+            widths = [1] * n_labels
+
+        table_width = document.rtf_page.col_width or 8.5
+        total = sum(widths)
+        dims = (1, n_labels)
+        lines = 1
+        for j, label in enumerate(labels):
+            cell_width = table_width * widths[j] / total
+            if cell_width <= 0:
+                continue
+            font = BroadcastValue(value=header.text_font, dimension=dims).iloc(0, j)
+            size = BroadcastValue(value=header.text_font_size, dimension=dims).iloc(
+                0, j
+            )
+            try:
+                text_width = get_string_width(label, font=font, font_size=size)
+            except ValueError:
+                continue
+            lines = max(lines, int(text_width / cell_width) + 1)
+        return lines
 
     def generate_page_break(self, document) -> str:
         """Generate proper RTF page break sequence."""
